@@ -127,7 +127,7 @@ def ymember(result, w):
     return Or(*rs)
 
 
-c = contract("pdfminer.utils:drange", props=["C20"], inline=True)
+c = contract("pdfminer.utils:drange", props=["C20", "C09"], inline=True)
 c.param("v0", T.Real()).param("v1", T.Real()).param("d", T.Int(lo=1, hi=1000, samples=[1, 2, 50]))
 c.ghost("t", T.Int(lo=-200, hi=200))
 c.ens("range-is-floor-cells", lambda v0, v1, d, t, result:
@@ -140,7 +140,7 @@ def _in_range(r, t):
     return r.contains(t)
 
 
-c = contract("pdfminer.utils:Plane._getrange", props=["C20"])
+c = contract("pdfminer.utils:Plane._getrange", props=["C20", "C09"])
 c.param("self", PlaneS()).param("bbox", R4())
 c.ghost("cx", T.Int(lo=-200, hi=200)).ghost("cy", T.Int(lo=-200, hi=200))
 c.ens("yields-exactly-the-cells-of-the-clipped-box", lambda self, bbox, cx, cy, result:
@@ -176,12 +176,12 @@ def _add_range_arg(fn):
 
 
 for _m in ("add", "remove"):
-    c = fragment("pdfminer.utils:Plane.%s" % _m, "cells-of-own-box", _add_range_arg, props=["C20"])
+    c = fragment("pdfminer.utils:Plane.%s" % _m, "cells-of-own-box", _add_range_arg, props=["C20", "C09"])
     c.param("obj", BoxObj()).param("self", T.Opaque("plane"))
     c.ens("range-is-computed-from-the-object-box", lambda obj, result: eq(result, (obj.x0, obj.y0, obj.x1, obj.y1)))
 
 
-@lemma("grid-lemma-G", props=["C20"],
+@lemma("grid-lemma-G", props=["C20", "C09"],
        note="properly overlapping boxes whose common region meets the index bounds share a grid cell")
 def _(lc):
     B, o, q = lc.fresh(R4(), "B"), lc.fresh(R4(), "o"), lc.fresh(R4(), "q")
